@@ -19,6 +19,18 @@ Primitive writes and how they are intercepted
                 journal): module global `pysyncobj.journal.os` (proxy: `remove`), the `open` wrapper, the
                 mmap shim (it asks /proc/self/fd/<n> which file a new mapping belongs to) and the
                 `shutil` proxy (a move of `*.meta.tmp` is TM, of `<journal>.tmp` is JM)
+  FS:*          every OTHER file-system-changing call the module can make is intercepted one level lower and
+                recorded as a primitive too, named by the roles of its paths (journal | meta | metatmp | jtmp |
+                other:<name>): os.remove / unlink / rename / replace / renames / truncate, shutil.move / copy /
+                copy2 / copyfile / copyfileobj, open() with w / a / x in the mode (creation or truncation is one
+                event, the content reaching the file at flush / close a second, tearable one).  The known calls
+                above are just the classified cases (remove of jtmp = JR, rename/move jtmp->journal = JM,
+                metatmp->meta = TM, open 'wb' of metatmp / jtmp = TC+TW / JC+JW).  Kill plans stop before / after
+                FS:* primitives like any other; `apply_prims` replays them on a directory image (remove = file
+                absent, rename = target := source, source absent, copy, create = empty, write = content).
+                Creating a fresh journal is FS:create:journal, FS:write:journal:40, R1024.
+  fs call events = all primitives except R / S / JZ / JS; `Real.apply(op, fs_hook=...)` is called right before and
+                right after each (fs_images: copy of the directory), `fs_kill=(n, "before"|"after")` kills there.
 `mmap.flush()` (msync) is NOT forwarded to the real mapping (irrelevant for a killed process, no primitive
 of the model, slow on a busy disk).  All four globals are restored after every single call (`patched`,
 try/finally).
